@@ -87,10 +87,11 @@ type c15RuleSpec struct {
 	Action  int
 	Target  string // for jump/goto
 	Comment string
+	Prefix  string // LOG prefix (action 7)
 }
 
 func (r c15RuleSpec) String() string {
-	return fmt.Sprintf("m%d/a%d%s/%q", r.Match, r.Action, r.Target, r.Comment)
+	return fmt.Sprintf("m%d/a%d%s%s/%q", r.Match, r.Action, r.Target, r.Prefix, r.Comment)
 }
 
 func c15BuildRule(r c15RuleSpec) generictables.Rule {
@@ -131,6 +132,8 @@ func c15BuildRule(r c15RuleSpec) generictables.Rule {
 		a = iptables.SetMarkAction{Mark: 0x10}
 	case 6:
 		a = nil // match-only rule (counts packets)
+	case 7:
+		a = iptables.LogAction{Prefix: r.Prefix}
 	}
 	rule := generictables.Rule{Match: m, Action: a}
 	if r.Comment != "" {
@@ -579,6 +582,9 @@ func (h *c15H) apply(label string) bool {
 		return true
 	}
 	h.checkExact("after Apply (" + label + ")")
+	if strings.Contains(h.dump(), "%") && h.desiredHasPercent() {
+		h.classes["verified-apply-with-percent-rule"] = true
+	}
 	if h.emptyChainDeletedOOB {
 		h.classes["empty-chain-deleted-oob-then-resync"] = true
 		h.emptyChainDeletedOOB = false
@@ -595,6 +601,34 @@ func (h *c15H) apply(label string) bool {
 		h.classes["no-rewrite-checked"] = true
 	}
 	return true
+}
+
+// desiredHasPercent: some rule Felix must program (reachable chain or hook) contains '%'.
+func (h *c15H) desiredHasPercent() bool {
+	has := func(rs []c15RuleSpec) bool {
+		for _, r := range rs {
+			if strings.Contains(r.Comment, "%") || strings.Contains(r.Prefix, "%") {
+				return true
+			}
+		}
+		return false
+	}
+	for c := range h.model.reachable() {
+		if has(h.model.chains[c].Rules) {
+			return true
+		}
+	}
+	for _, rs := range h.model.inserts {
+		if has(rs) {
+			return true
+		}
+	}
+	for _, rs := range h.model.appends {
+		if has(rs) {
+			return true
+		}
+	}
+	return false
 }
 
 func (h *c15H) foreignRuleCount() int {
@@ -635,7 +669,14 @@ func (h *c15H) refreshForeign() {
 	}
 }
 
+var c15Comments = []string{"", "", "Policy pol1 ingress", "weird \"quoted\" $comment",
+	"sample 100% of traffic", "rate=%d/%s x%%y", "50%", "a+b=c,d:e/f-g @h %v"}
+
+var c15LogPrefixes = []string{"calico-packet", "fw%d", "drop 100%", "cali %t %k"}
+
 var c15ForeignRules = []string{
+	`-m comment --comment "kube 100% of %s" -j ACCEPT`,
+	`-p udp -j LOG --log-prefix "other \"app\" %d \\ x: "`,
 	`-s 10.1.0.0/16 -j ACCEPT`,
 	`-m comment --comment "kube rule" -j KUBE-FORWARD`,
 	`-p tcp -m tcp --dport 22 -j DROP`,
@@ -664,12 +705,21 @@ func (h *c15H) drawRule(t *rapid.T, selfIdx int, forHook bool) c15RuleSpec {
 		}
 		r.Target = rapid.SampledFrom(targets).Draw(t, "target")
 	} else {
-		r.Action = rapid.SampledFrom([]int{0, 1, 2, 5, 6}).Draw(t, "action")
+		r.Action = rapid.SampledFrom([]int{0, 1, 2, 5, 6, 7}).Draw(t, "action")
 		if r.Action == 6 && r.Match == 0 {
 			r.Action = 0
 		}
+		if r.Action == 7 {
+			// The log prefix comes from configuration (LogPrefix); unknown %-specifiers are passed
+			// through verbatim by the rule renderer, spaces are legal inside the quoted prefix.
+			r.Prefix = rapid.SampledFrom(c15LogPrefixes).Draw(t, "logPrefix")
+		}
 	}
-	r.Comment = rapid.SampledFrom([]string{"", "", "Policy pol1 ingress", "weird \"quoted\" $comment"}).Draw(t, "comment")
+	// Rule comments: anything goes in, escapeComment() keeps [\w @%+=:,./-] and replaces the rest.
+	r.Comment = rapid.SampledFrom(c15Comments).Draw(t, "comment")
+	if strings.Contains(r.Comment, "%") || strings.Contains(r.Prefix, "%") {
+		h.classes["desired-rule-with-percent"] = true
+	}
 	return r
 }
 
@@ -731,7 +781,7 @@ func TestVerifC15IptablesSync(t *testing.T) {
 		for _, kc := range kcs {
 			n := rapid.IntRange(0, 3).Draw(t, "nStart:"+kc)
 			for j := 0; j < n; j++ {
-				kind := rapid.IntRange(0, 9).Draw(t, "startRuleKind")
+				kind := rapid.IntRange(0, 11).Draw(t, "startRuleKind")
 				switch {
 				case kind <= 5:
 					start = append(start, "-A "+kc+" "+rapid.SampledFrom(c15ForeignRules).Draw(t, "foreignRule"))
@@ -748,6 +798,14 @@ func TestVerifC15IptablesSync(t *testing.T) {
 					// a Felix-marked rule that is not a jump (e.g. an old mark/accept rule)
 					start = append(start, fmt.Sprintf(`-A %s -m comment --comment "cali:MISCrule%08d" -m mark --mark 0x10/0x10 -j ACCEPT`, kc, j))
 					h.classes["start-stale-hook-hashed"] = true
+				case kind == 10:
+					// Felix-marked rules of an earlier, differently configured Felix whose text contains
+					// characters that mean something to fmt / shells / iptables-save quoting.
+					start = append(start, fmt.Sprintf(`-A %s -m comment --comment "cali:PCTHOOK%09d" -m comment --comment "sample 100%% of %%s traffic" -j ACCEPT`, kc, j))
+					h.classes["start-stale-hook-with-percent"] = true
+				case kind == 11:
+					start = append(start, fmt.Sprintf(`-A %s -m comment --comment "cali:QUOTEHK%09d" -j LOG --log-prefix "old \"fw\" %%d \\ x: " --log-level 5`, kc, j))
+					h.classes["start-stale-hook-with-quotes"] = true
 				case kind == 9 && h.table == "nat" && kc == "POSTROUTING":
 					start = append(start, `-A POSTROUTING -o tunl0 -m addrtype ! --src-type LOCAL --limit-iface-out -m addrtype --src-type LOCAL -j MASQUERADE`)
 					h.classes["start-historic-nat-rule"] = true
@@ -781,7 +839,7 @@ func TestVerifC15IptablesSync(t *testing.T) {
 				}
 			}
 			h.sendModel()
-			h.tbl.Apply()
+			h.apply("p") // the previous Felix's Apply is held to the same oracle
 			if rapid.Bool().Draw(t, "forgetPrevious") {
 				// The new Felix wants something else entirely (starts from an empty model).
 				h.model = c15NewModel()
